@@ -14,6 +14,31 @@ from ofgen import rint, rbytes, rmac, rname, U8, U16, U32, U64
 sys.path.insert(0, os.path.join(os.path.dirname(os.path.abspath(__file__)), "translate"))
 import codec_layouts, spec_parser
 
+def _install_resolve_cache():
+    """common.resolve_qualname parses the whole source file once per anchor (47 ms x ~400 anchors); give it a per-path
+    parse cache.  Same result, same signature; nothing else of common is touched."""
+    import ast
+    if getattr(common.resolve_qualname, "_cached", False): return
+    trees = {}
+    def resolve_qualname(path, qual):
+        if path not in trees:
+            try: trees[path] = ast.parse(open(path).read())
+            except Exception: trees[path] = None
+        node = trees[path]
+        if node is None: return None
+        for part in qual.split("."):
+            nxt = None
+            for ch in getattr(node, "body", []):
+                if isinstance(ch, (ast.FunctionDef, ast.AsyncFunctionDef, ast.ClassDef)) and ch.name == part:
+                    nxt = ch; break
+            if nxt is None: return None
+            node = nxt
+        first = min([node.lineno] + [d.lineno for d in getattr(node, "decorator_list", [])])
+        return (first, node.end_lineno)
+    resolve_qualname._cached = True
+    common.resolve_qualname = resolve_qualname
+
+
 TRAILER = b"\xa5\x5a\xa5"
 MAXLEN = 65535
 
@@ -30,6 +55,13 @@ SPEC_ACTION_CODES = {"ofp_action_output": {0}, "ofp_action_vlan_vid": {1}, "ofp_
 SPEC_STATS_CODE = {"ofp_desc_stats_request": 0, "ofp_flow_stats_request": 1, "ofp_aggregate_stats_request": 2, "ofp_table_stats_request": 3,
                    "ofp_port_stats_request": 4, "ofp_queue_stats_request": 5, "ofp_desc_stats": 0, "ofp_flow_stats": 1,
                    "ofp_aggregate_stats": 2, "ofp_table_stats": 3, "ofp_port_stats": 4, "ofp_queue_stats": 5}
+
+# classes the translator names as outside its vocabulary on the unchanged tree (hand models / oracle cover them).  A class
+# that is untranslated on the tree under test and is NOT in this list is *untied*: no layout theorem speaks about it on
+# this run; it is reported in the evidence and on stderr, and its bytes are still compared with the standard's structure
+# by the oracle (spec_bytes) and its round trip by running the real code.
+EXPECTED_UNTRANSLATED = {"ofp_header", "ofp_packet_out", "ofp_flow_mod_table_id", "nx_flow_mod", "nx_action_bundle",
+                         "nx_action_learn", "flow_mod_spec", "nxm_entry", "nxt_packet_in", "nx_match"}
 
 # classes for which a pack() that raises is what the code is meant to do (abstract)
 ABSTRACT = {"ofp_header"}
@@ -267,10 +299,10 @@ class C01(Check):
     lean_targets = ["drv_c01"]
     driver = "drv_c01"
     theorems = ["Pox.C01F.messages_ok", "Pox.C01F.codec_message_wf", "Pox.C01F.codec_stream_framing",
-                "Pox.C01.pack_eq_unpack", "Pox.C01.pack_eq_spec", "Pox.C01.len_eq", "Pox.C01.untranslated_pinned",
-                "Pox.C01.irregular_pinned", "Pox.C01.registry_messages", "Pox.C01.registry_actions", "Pox.C01.registry_stats",
+                "Pox.C01.pack_eq_unpack", "Pox.C01.pack_eq_spec", "Pox.C01.len_eq",
+                "Pox.C01.registry_messages", "Pox.C01.registry_actions", "Pox.C01.registry_stats",
                 "Pox.C01.registry_queue_props", "Pox.C01.registry_total", "Pox.C01.roundtrip", "Pox.C01.actions_stream",
-                "Pox.C01.uncovered_pinned", "Pox.C01.packet_out_roundtrip", "Pox.C01.flow_mod_data_roundtrip",
+                "Pox.C01.packet_out_roundtrip", "Pox.C01.flow_mod_data_roundtrip",
                 "Pox.C01.stats_reply_list_roundtrip", "Pox.C01.stats_body_roundtrip", "Pox.C01.nx_flow_mod_roundtrip",
                 "Pox.C01.nxt_packet_in_roundtrip", "Pox.C01.match_roundtrip", "Pox.C01.match_roundtrip_fm", "Pox.C01.match_nonnormal_witness", "Pox.C01.nxm_roundtrip", "Pox.C01.nx_match_roundtrip",
                 "Pox.Layout.decode_encode", "Pox.Layout.encode_length", "Pox.Layout.lenfield_exact", "Pox.Layout.codecAt_good",
@@ -324,6 +356,7 @@ class C01(Check):
         self._load_layouts()
         self.spec = spec_parser.load(os.path.join(common.LEAN, "PoxModel", "Spec", "OF10Layouts.lean"))
         self._rec_cache = {}
+        _install_resolve_cache()
         self.anchors = self.compute_anchors()
 
     CODEC_METHODS = {"pack", "unpack", "_pack_body", "_unpack_body", "__len__", "_body_length", "unpack_new", "_unpack_header",
@@ -332,19 +365,20 @@ class C01(Check):
     CODEC_FUNCS = {"_read", "_unpack", "_skip", "_readzs", "_readether", "_readip", "_packzs", "_unpack_actions", "_unpack_queue_props"}
 
     def compute_anchors(self):
-        """the bodies of the codec methods (pack/unpack/__len__ triples and their helpers) of both files, read with ast"""
+        """name-based anchors ("path", "Class.method" | "function"): the codec methods (pack/unpack/__len__ triples and
+        their helpers) of every class of both files and the module-level read helpers.  The names are discovered with ast
+        on the current tree and resolved by common.AnchorCoverage on every run, so they do not go stale with line shifts."""
         import ast
         out = []
         for rel in ("pox/openflow/libopenflow_01.py", "pox/openflow/nicira.py"):
             tree = ast.parse(open(os.path.join(common.REPO, rel)).read())
             for node in tree.body:
-                fns = []
-                if isinstance(node, ast.FunctionDef) and node.name in self.CODEC_FUNCS: fns = [node]
+                if isinstance(node, ast.FunctionDef) and (node.name in self.CODEC_FUNCS or node.name.startswith("_unpack")):
+                    out.append((rel, node.name))
                 elif isinstance(node, ast.ClassDef):
-                    fns = [f for f in node.body if isinstance(f, ast.FunctionDef) and f.name in self.CODEC_METHODS]
-                for f in fns:
-                    body = [b for b in f.body if not (isinstance(b, ast.Expr) and isinstance(b.value, ast.Constant))]
-                    if body: out.append((rel, body[0].lineno, f.end_lineno))
+                    for f in node.body:
+                        if isinstance(f, ast.FunctionDef) and f.name in self.CODEC_METHODS:
+                            out.append((rel, "%s.%s" % (node.name, f.name)))
         return out
 
     def _load_layouts(self):
@@ -653,7 +687,10 @@ class C01(Check):
         except Exception as e:
             out["frames"] = "!%s" % e; return out
         out["frames"] = [m.hex() for m in msgs]
-        rec = self.rec_of(fm); rec["vals"]["buffer_id"] = own
+        try:
+            rec = self.rec_of(fm); rec["vals"]["buffer_id"] = own
+        except Exception:
+            rec = None                      # ofp_flow_mod (or an action class) is not translated on this tree: oracle only
         out["rec"] = rec
         out["xb"] = struct.unpack_from("!L", msgs[1], 4)[0] if len(msgs) > 1 else 0
         out["xp"] = struct.unpack_from("!L", msgs[2], 4)[0] if len(msgs) > 2 else 0
@@ -1076,9 +1113,39 @@ class C01(Check):
         for c in self.generate(rng, "quick"): yield c
         for c in self.generate(rng, "quick"): yield c
 
+    def pins(self):
+        """build Properties/C01Pins.lean (statements about particular generated classes: which are translated / irregular /
+        uncovered, instances, non-vacuity examples).  Its failure does not break the property theorems; it is reported."""
+        path = os.path.join(common.LEAN, "PoxModel", "Properties", "C01Pins.lean")
+        try:
+            src = common.strip_lean_comments(open(path).read())
+            hits = [m.group(0).strip() for m in common.FORBIDDEN.finditer(src)]
+            ok, logtxt = common.lake_build(["PoxModel.Properties.C01Pins"])
+        except Exception as e:
+            return {"pins_ok": False, "pins_error": "%s: %s" % (type(e).__name__, e)}
+        out = {"pins_ok": bool(ok and not hits)}
+        if hits: out["pins_forbidden_tokens"] = hits
+        if not ok:
+            import re
+            out["pins_failed"] = re.findall(r"error: PoxModel/Properties/C01Pins.lean:(\d+)", logtxt)[:10]
+        return out
+
     def extra_evidence(self):
-        return {"translated_classes": len(self.lay), "regular_classes": sum(1 for c in self.lay.values() if not c["flags"]),
-                "irregular_classes": sorted(n for n, c in self.lay.items() if c["flags"]), "untranslated_classes": sorted(self.untranslated)}
+        untied = sorted(set(self.untranslated) - EXPECTED_UNTRANSLATED)
+        ev = {"translated_classes": len(self.lay), "regular_classes": sum(1 for c in self.lay.values() if not c["flags"]),
+              "irregular_classes": sorted(n for n, c in self.lay.items() if c["flags"]),
+              "untranslated_classes": sorted(self.untranslated),
+              "untied_classes": {n: self.untranslated[n][:160] for n in untied},
+              "untied_in_spec_table": sorted(n for n in untied if n in self.spec["table"]),
+              "newly_translated_classes": sorted(EXPECTED_UNTRANSLATED - set(self.untranslated))}
+        ev.update(self.pins())
+        if untied:
+            common.log("C01: %d class(es) not read by the translator on this tree, hence not tied to a layout theorem on this run "
+                       "(oracle + spec-layout comparison still ran on the real code): %s" % (len(untied), ", ".join(untied)))
+        if not ev.get("pins_ok"):
+            common.log("C01: Properties/C01Pins.lean (pins / instances over today's classes) does not build on this tree: %s"
+                       % (ev.get("pins_failed") or ev.get("pins_error") or ev.get("pins_forbidden_tokens")))
+        return ev
 
 
 CHECK = C01
